@@ -14,9 +14,9 @@ const (
 	tagRGB   = 1 << 25
 )
 
-func Index(i int) uint32         { return uint32(i)&0xff | tagIndex }
-func RGB(r, g, b int) uint32     { return uint32(r&0xff)<<16 | uint32(g&0xff)<<8 | uint32(b&0xff) | tagRGB }
-func IsRGB(c uint32) bool        { return c&tagRGB != 0 && c&tagIndex == 0 }
+func Index(i int) uint32     { return uint32(i)&0xff | tagIndex }
+func RGB(r, g, b int) uint32 { return uint32(r&0xff)<<16 | uint32(g&0xff)<<8 | uint32(b&0xff) | tagRGB }
+func IsRGB(c uint32) bool    { return c&tagRGB != 0 && c&tagIndex == 0 }
 func ColorClass(c uint32) string {
 	switch {
 	case c&tagIndex != 0:
